@@ -78,6 +78,8 @@ class Prop:
 def run_property(prop, tier, seed):
     t0 = time.time()
     pid = prop.pid
+    import shutil
+    shutil.rmtree(os.path.join(C.REPLAYS, pid), ignore_errors=True)
     violations = []      # (replay_path, suffix)
     known_hits = []
     try:
